@@ -400,6 +400,7 @@ pub fn adjust(cfg: &mut SwarmCfg, tier: &str, r: &mut Prng) {
             cfg.n_parties = cfg.n_parties.min(5);
             cfg.steps = cfg.steps.min(40);
             cfg.knobs.push(("psk".into(), 1));
+            cfg.knobs.push(("psk-by-ref".into(), 1));
             setw(cfg, "write", 14);
             setw(cfg, "send_app", 12);
             setw(cfg, "crash", 2);
@@ -915,6 +916,11 @@ pub fn prop_spec_override(
     }
     if w.cfg.knob("psk-templates").is_some() && w.prng.chance(1, 10) {
         return Some(PropSpec::Template { t: 14, q: w.prng.usize_below(3) });
+    }
+    if w.cfg.knob("psk-by-ref").is_some() && w.prng.chance(1, 5) {
+        // C15: external PSKs proposed by reference (every party holds the same values), so that the PSK store is
+        // also consulted while proposals are filtered
+        return Some(PropSpec::ExtPsk { id: w.prng.below(3) as u8 });
     }
     if w.cfg.knob("psk") == Some(2) && w.prng.chance(1, 3) {
         return Some(if w.prng.chance(1, 2) {
